@@ -860,7 +860,12 @@ func (x *explorer) step(s *PState) []succ {
 				if v.T == nil || (n.KeyVar != nil && id == n.KeyVar.ID) || (n.ValVar != nil && id == n.ValVar.ID) {
 					continue
 				}
-				if nt := ageTerm(v.T, key); nt != v.T {
+				nt := ageTerm(v.T, key)
+				// a list grown in the loop is carried to the next iteration with its elements
+				// summarised (constant fields and loop keys kept, other fields dropped): the
+				// edge that appended them keeps the full term in its label
+				nt = summariseGrown(nt)
+				if nt != v.T {
 					st2[id] = Val{T: nt, N: v.N}
 				}
 			}
@@ -1202,4 +1207,59 @@ func orderFacts(facts map[string]bool, a Atom) (map[string]bool, []Atom) {
 		}
 	}
 	return facts, out
+}
+
+// summariseGrown: for append(self, e1, ...) replace every struct element by a
+// copy that keeps only constant fields and fields that name loop elements/keys.
+func summariseGrown(t *Term) *Term {
+	if t == nil || t.Op != "call" || t.Name != "append" || len(t.Args) < 2 || t.Args[0].Op != "self" {
+		return t
+	}
+	changed := false
+	args := make([]*Term, len(t.Args))
+	copy(args, t.Args)
+	for i := 1; i < len(args); i++ {
+		if ns := summariseElem(args[i]); ns != args[i] {
+			args[i] = ns
+			changed = true
+		}
+	}
+	if !changed {
+		return t
+	}
+	return &Term{Op: t.Op, Name: t.Name, Args: args, V: t.V, Fields: t.Fields, Pos: t.Pos}
+}
+
+func summariseElem(e *Term) *Term {
+	switch e.Op {
+	case "addr":
+		if len(e.Args) == 1 {
+			if in := summariseElem(e.Args[0]); in != e.Args[0] {
+				return &Term{Op: "addr", Args: []*Term{in}, Pos: e.Pos}
+			}
+		}
+		return e
+	case "struct":
+		keep := func(v *Term) bool {
+			if v == nil || v == tZero || v.isConst() {
+				return true
+			}
+			k := v.Key()
+			return strings.HasPrefix(k, "re(") || strings.HasPrefix(k, "rk(") || strings.HasPrefix(k, "old(re(") || strings.HasPrefix(k, "old(rk(")
+		}
+		changed := false
+		args := make([]*Term, len(e.Args))
+		copy(args, e.Args)
+		for i := 1; i < len(args); i++ {
+			if !keep(args[i]) && args[i].depth() > 2 {
+				args[i] = opaque("dropped")
+				changed = true
+			}
+		}
+		if !changed {
+			return e
+		}
+		return &Term{Op: "struct", Name: e.Name, Args: args, Fields: e.Fields, Pos: e.Pos}
+	}
+	return e
 }
